@@ -35,6 +35,10 @@ PROGRAMS = {
 PROGRAMS["qualified-names"] = [{"processor": "semantiva.examples.test_utils:FloatValueDataSource", "parameters": {"value": 2.0}},
                                {"processor": "vpkg.ext2:VQualifiedScale"},      # a module nobody registered
                                {"processor": "vpkg.ext2:VQualifiedScale"}, {"processor": "FloatDataSink"}]
+PROGRAMS["mixed-key-param"] = [{"processor": "FloatValueDataSource", "parameters": {"value": 2.0}},
+                               {"processor": 'template:"{m}":label'}, {"processor": "FloatDataSink"}]
+PROGRAMS["failing"] = [{"processor": "FloatValueDataSource", "parameters": {"value": 2.0}}, {"processor": "VBoomOperation"}]
+PROGRAM_CTX = {"mixed-key-param": {"m": {1: "a", "b": 2}}}      # a parameter value that is a mapping with mixed keys
 CHECKPOINTS = (50, 150, 450)
 CLASS_MACHINERY = None
 
@@ -80,7 +84,7 @@ def container_census(live: Dict[str, Any] | None = None) -> Dict[str, int]:
         if not mname.startswith("semantiva") or mod is None:
             continue
         for name, val in list(vars(mod).items()):
-            if isinstance(val, kinds) and not name.startswith("__"):
+            if isinstance(val, kinds) and (not name.startswith("__") or name == "__warningregistry__"):
                 out[f"{mname}.{name}"] = len(val)
             elif isinstance(val, type) and getattr(val, "__module__", None) == mname:
                 for an, av in list(vars(val).items()):
@@ -112,7 +116,7 @@ def one_mode(job) -> Dict[str, Any]:
     samples: Dict[int, Dict[str, Any]] = {}
 
     def payload():
-        return Payload(NoDataType(), ContextType({}))
+        return Payload(NoDataType(), ContextType(dict(PROGRAM_CTX.get(prog, {}))))
 
     runner = None
     cleanup = lambda: None
@@ -159,14 +163,26 @@ def one_mode(job) -> Dict[str, Any]:
         wt.start()
 
         def runner():
-            fut = master.enqueue(nodes, data=NoDataType(), context=ContextType({}), return_future=True)
-            fut.result(timeout=30)
+            fut = master.enqueue(nodes, data=NoDataType(), context=ContextType(dict(PROGRAM_CTX.get(prog, {}))), return_future=True)
+            try:
+                fut.result(timeout=30)
+            except Exception:
+                if prog != "failing":
+                    raise
 
         def cleanup():
             stop.set()
             master.running = False
             mt.join(timeout=2)
             wt.join(timeout=2)
+    if prog == "failing":
+        inner = runner
+
+        def runner():               # every run raises (ValueError from the second node); the caller carries on
+            try:
+                inner()
+            except Exception:
+                pass
     try:
         for _ in range(3):          # warm-up
             runner()
@@ -220,7 +236,7 @@ def check(tier: str) -> int:
         raise core.MachineryError("sensitivity: per-run registration should violate RegistryBoundedByDistinctConfigs")
     run.add_tlc(sens, count_states=False)
     cps = (20, 60, 180) if tier == "quick" else CHECKPOINTS
-    progs = list(PROGRAMS) if tier == "thorough" else ["plain", "sweep-slice", "payload-io", "qualified-names"]
+    progs = list(PROGRAMS)
     jobs = [{"prog": p, "mode": m, "checkpoints": cps} for p in progs for m in ("reused", "fresh", "launch", "queue", "fresh-traced", "reused-traced")]
     results = []
     for chunk in pmap(modes_chunk, jobs, chunk=1, tasks_per_child=1):
